@@ -56,7 +56,8 @@ Record strace := STrace {
 }.
 
 Inductive c01case :=
-| SysCase (shards : nat) (batches : list (list dgram)) (table : list (str * pfres))
+| SysCase (shards : nat) (ns : str) (ignore_host : bool)   (* workers; the parser's namespace and ignore-host *)
+          (batches : list (list dgram)) (table : list (str * pfres))
           (flushes : list (nat * nat * list oentry))
           (tr : option strace)   (* None: the harness could not resolve the logs (a monitor reports why) *)
 | AggCase (c : config) (ops : list aop).
@@ -68,9 +69,10 @@ Definition oracle (t : list (str * pfres)) (s : str) : pfres :=
 
 (* the datapoints of all batches (parser.go through Model/Datagram.v); None = the datagram
    model reports a panic *)
-Definition parse_each (t : list (str * pfres)) (bs : list (list dgram)) : option (list (list datapoint)) :=
+Definition parse_each (ns : str) (ih : bool) (t : list (str * pfres)) (bs : list (list dgram))
+    : option (list (list datapoint)) :=
   foldr (λ b acc,
-           match acc, Datagram.parse_all (oracle t) (Datagram.Cfg [] false)
+           match acc, Datagram.parse_all (oracle t) (Datagram.Cfg ns ih)
                         (map (λ d, Datagram.Dg (dg_ip d) (dg_ts d) (dg_msg d)) b) with
            | Some ds, Datagram.DgOk r => Some (Datagram.dg_metrics r :: ds)
            | _, _ => None
@@ -252,8 +254,8 @@ Fixpoint trace_agg (c : config) (a : mmap) (ops : list aop) : list (list entry) 
 
 Definition check_case (c : c01case) : bool :=
   match c with
-  | SysCase n bs t fl tr =>
-      match parse_each t bs with
+  | SysCase n ns ih bs t fl tr =>
+      match parse_each ns ih t bs with
       | Some dps =>
           let '(m_in, m_out) := sys_model dps fl in
           same_content m_in m_out
@@ -274,8 +276,8 @@ Inductive explain :=
 
 Definition explain_case (c : c01case) : explain :=
   match c with
-  | SysCase n bs t fl tr =>
-      match parse_each t bs with
+  | SysCase n ns ih bs t fl tr =>
+      match parse_each ns ih t bs with
       | Some dps =>
           let '(m_in, m_out) := sys_model dps fl in
           XSys (cdump m_in) (cdump m_out) (routed n fl) (pairs_unique (map (λ x, x.1) fl)) (series_unique_per_flush fl)
